@@ -16,4 +16,10 @@ func init() {
 	specs["C13"] = &PropSpec{Level: "exploration", QuickRuns: 64, ThorRuns: 640, Wall: 300 * time.Second, MaxProcs: 2,
 		Rule:   "evaluation = one (frame sequence, partition into reads) pair pushed through the getty receive-loop replica; frame sequences of 1-5 frames with generated head maps and bodies; partitions: every single cut position (30% of sequences), every pair of cut positions (thorough, 8%), random chunk sizes otherwise; distinct = (frames, stream length, garbage length, chunks) signatures; every evaluation is non-trivial (at least one cut) except whole-stream deliveries",
 		Assume: commonAssume}
+	specs["C14"] = &PropSpec{Level: "exploration", QuickRuns: 96, ThorRuns: 1200, Wall: 180 * time.Second, MaxProcs: 2,
+		Rule:   "episode = 1-12 concurrent SendSyncRequest callers with content-unique requests; per caller the coordinator answers normally / slowly / twice / never / after the RPC timeout, optionally the session is lost with requests pending, then one fresh request; tape decides caller order, reply latencies, fragmentation; distinct = (caller count, action multiset, close time) signatures; non-trivial = more than one caller",
+		Assume: append([]string{"packages of one session are handed to the listener one per scheduler event, so two handler goroutines never execute at the same time (their interleaving below statement level is not explored)"}, commonAssume...)}
+	specs["C19"] = &PropSpec{Level: "exploration", QuickRuns: 150, ThorRuns: 1500, Wall: 180 * time.Second, MaxProcs: 2, Modes: []string{"select", "route", "reconnect"},
+		Rule:   "mode select: histories of open/close(release)/close-only/busy operations interleaved with loadbalance.Select over all five policies (plus an unknown spelling) and generated xids, one evaluation per selection; mode route: three coordinator sessions, XID policy, requests through SendSyncRequest; mode reconnect: TM + 1-3 TCC resources, session lost idle / with the commit in flight / between phase one and two, once or repeatedly; non-trivial = a closed session exists at selection time, or any route/reconnect episode",
+		Assume: commonAssume}
 }
